@@ -4021,6 +4021,14 @@ impl<'a> ZonedDifference<'a> {
                 tz = tz.diagnostic_name(),
             )
         })?;
+        // When no whole day lies between the two, the intermediate datetime
+        // is the starting datetime itself. Measure from the starting
+        // *instant* then: re-resolving its civil datetime yields a different
+        // instant when `zdt1` is the later instant of a fold, and adding the
+        // result back to `zdt1` would not give `zdt2`.
+        if mid == dt1 {
+            zmid = zdt1.clone();
+        }
         if t::sign(zdt2, &zmid) == -sign {
             // For a negative difference, at most one day of correction is
             // possible (as in Temporal's `DifferenceZonedDateTime`). We get
@@ -4051,20 +4059,15 @@ impl<'a> ZonedDifference<'a> {
                     tz = tz.diagnostic_name(),
                 )
             })?;
+            if mid == dt1 {
+                zmid = zdt1.clone();
+            }
             if t::sign(zdt2, &zmid) == -sign {
                 return Err(err!(
                     "failed to find an intermediate datetime between \
                      {zdt1} and {zdt2} after correcting by two days",
                 ));
             }
-        }
-        // When no whole day lies between the two, the intermediate datetime
-        // is the starting datetime itself. Measure the remainder from the
-        // starting *instant* then: re-resolving its civil datetime yields a
-        // different instant when `zdt1` is the later instant of a fold, and
-        // adding the result back to `zdt1` would not give `zdt2`.
-        if mid == dt1 {
-            zmid = zdt1.clone();
         }
         let remainder_nano = zdt2.timestamp().as_nanosecond_ranged()
             - zmid.timestamp().as_nanosecond_ranged();
